@@ -106,6 +106,9 @@ def cases(tier, seed, phase):
             for attempts in (0, 1, 2, 3):
                 for domain in ((True, False) if attempts == 0 else (True,)):
                     yield {'kind': 'mx', 'mx': mx, 'a': a, 'attempts': attempts, 'domain': domain}
+                    if domain and attempts in (0, 3):
+                        # force_mx(): the resolver is not asked at all, whatever it would have said (also in another letter case)
+                        yield {'kind': 'mx', 'mx': mx, 'a': a, 'attempts': attempts, 'domain': domain, 'force': 'dest.example' if attempts == 0 else 'DEST.Example'}
                     if domain and attempts <= 1:
                         # the same relay object had a resolver failure just before / gets a second attempt while the lookup is in flight
                         yield {'kind': 'mx', 'mx': mx, 'a': a, 'attempts': attempts, 'domain': domain, 'first_error': True}
@@ -614,8 +617,17 @@ def run_mx(case, model):
         return res
     mxmod.DNSResolver.query = staticmethod(fake_query)
     chosen = []
+    asked = []
+    real_fake_query = fake_query
+
+    def counting_query(name, query_type):
+        asked.append((name, query_type))
+        return real_fake_query(name, query_type)
+    mxmod.DNSResolver.query = staticmethod(counting_query)
     try:
         relay = MxSmtpRelay(connect_timeout=0.1, command_timeout=0.1)
+        if case.get('force'):
+            relay.force_mx(case['force'], 'forced.example', 2525)
 
         class Static(object):
             def __init__(self, dest):
@@ -660,6 +672,12 @@ def run_mx(case, model):
             res2 = box.get('r2', 'hung')
     finally:
         mxmod.DNSResolver.query = saved
+    if case.get('force'):
+        hits = []
+        if res != 'ok' or chosen != ['forced.example'] or asked:
+            hits.append(hit('c11.mx-forced-host-not-used', 'a domain with a forced destination was not delivered to that destination without asking the resolver',
+                            observed={'result': res, 'destinations': chosen, 'resolver queries': asked[:3]}))
+        return None, hits, ['mx', 'forced']
     if res == 'ok':
         d = chosen[0] if chosen else '?'
         res = 'deliver:%s' % ('0' if d == 'dest.example' else d[2:].split('.')[0] if d.startswith('mx') else d)
